@@ -73,4 +73,20 @@ C15 == (pc = "done" /\ GoodPara(text)) => \A op \in PrefixOpts : \A trail \in BO
 C16 == (pc = "done" /\ GoodPara(text)) => \A o1 \in PrefixOpts : \A o2 \in PrefixOpts :
           LET f1 == FillFF(text, o1, E) IN
           Len(SplitChar(f1, LF)) >= 2 => RefillOp(f1, o2) = FillFF(text, [o2 EXCEPT !.ii = o1.ii, !.si = o1.si], E)
+
+\* every typed text is also replayed into the real crate, as the composite calls the relations are about
+EmitOpts == {op \in RelOpts : op.width \in {1, 3} /\ op.bw}
+Emit == pc = "done" =>
+  /\ \A op \in EmitOpts :
+       /\ PrintT(<<"REPLAY", ToJson([k |-> "c14", text |-> text, o |-> op])>>)
+       /\ PrintT(<<"REPLAY", ToJson([k |-> "c05", kind |-> "wrap", text |-> text, o |-> op, pre |-> <<>>])>>)
+       /\ PrintT(<<"REPLAY", ToJson([k |-> "c05", kind |-> "fill", text |-> text, o |-> op, pre |-> <<>>])>>)
+       /\ \A i \in {x \in 1..Len(text) : text[x] = LF} :
+             PrintT(<<"REPLAY", ToJson([k |-> "c09", a |-> SubSeq(text, 1, i - 1), b |-> SubSeq(text, i + 1, Len(text)), a2 |-> <<97, 32, 97>>, o |-> op])>>)
+       /\ (~HasEsc(text) /\ Len(text) > 0) =>
+             \A q \in MCSeqs : PrintT(<<"REPLAY", ToJson([k |-> "c13", col |-> SubSeq(text, 1, Len(text) \div 2) \o q \o SubSeq(text, (Len(text) \div 2) + 1, Len(text)), o |-> op])>>)
+  /\ GoodPara(text) =>
+       \A op \in {x \in PrefixOpts : x.width \in {1, 3}} :
+          /\ PrintT(<<"REPLAY", ToJson([k |-> "c15", para |-> text, trail |-> (Len(text) % 2 = 0), o |-> op])>>)
+          /\ PrintT(<<"REPLAY", ToJson([k |-> "c16", para |-> text, trail |-> (Len(text) % 2 = 1), o1 |-> op, o2 |-> [op EXCEPT !.width = 2]])>>)
 =============================================================================
